@@ -124,6 +124,19 @@ def judge_hist(s, ev, res):
                 r = ("C06.structure", "older-view-structure-stale", "")
         except Exception as e:
             r = ("C06.view", "older-view-read-raises:" + common.exc_failure(e), repr(e))
+    if r is None and s.t[0] != "U":
+        # the handle returned by a copy-construction FROM this state (the source's layout carries its history: spare
+        # room left by shortened strings, re-bound references), placed in the same buffer, against its own views
+        try:
+            cp = xt.build(s.t)(s.h, _buffer=s.h._buffer)
+        except Exception as e:
+            res.skipped["copy-raises(C09's business):" + common.exc_failure(e)] += 1
+            cp = None
+        if cp is not None:
+            res.events["copy-of-state"] += 1
+            r = compare(s.t, cp, res)
+            if r:
+                r = (r[0], "copy:" + r[1], "copy-constructed from the state reached: " + r[2])
     if r:
         res.outcomes[r[1].split(":")[0]] += 1
         return [common.violation(r[0], r[1], {}, {}, r[2])], False
